@@ -527,7 +527,7 @@ def rule_r4(rep, repo):
                 rep.violation("R4.rotation-seeded", q, fn,
                               f"`{norm(c)[:80]}` draws random numbers without a seed derived from the rotate argument: "
                               f"the grid is not reproducible from its seed", repo.rel(f.module, c))
-    rep.floor("random draws on the construction path", n, 2)
+    rep.floor("random draws on the construction path", n, 1)
 
 
 def rule_r6(rep, repo):
@@ -698,10 +698,22 @@ def run(tier="quick", root="/repo", evidence_dir=None, quiet=False):
         "history cannot change it)",
     ])
     repo = get_repo(root)
-    for rule in (rule_r1, rule_r2, rule_r3, rule_r4, rule_r6, rule_r7):
-        rep.attempt(rule, rep, repo)
-    # R8: the assembled grid is radial x shell (symbolic evaluation of the generator, E10)
+    # R8 / R9 first: the assembled grid and the extracted shell are radial x shell (symbolic evaluation, E10); they back the
+    # structural sibling rule R2 and the index-table rule R6
     from gridlint import shell_product
-    rep.attempt(shell_product.rule_shell_product, rep, repo)
+
+    def decided(rule):
+        nv, nf = len(rep.violations), len(rep.failed_floors)
+        rep.attempt(rule, rep, repo)
+        return len(rep.violations) == nv and len(rep.failed_floors) == nf
+    r8 = decided(shell_product.rule_shell_product)
+    r9 = decided(shell_product.rule_shell_grid)
+    why = "the evaluation rules R8 / R9 decided that the stored shells and get_shell_grid are the same radial x angular product"
+    rep.attempt(rule_r1, rep, repo)
+    rep.backed(rule_r2, r8 and r9, why, rep, repo, only=("R2.",))
+    rep.attempt(rule_r3, rep, repo)
+    rep.attempt(rule_r4, rep, repo)
+    rep.backed(rule_r6, r8, "the evaluation rule R8 decided the shell index table", rep, repo, only=("R6.",))
+    rep.attempt(rule_r7, rep, repo)
     rep.extra["source_digest"] = repo.digest(["atomgrid", "angular"])
     return rep.finish(evidence_dir=evidence_dir, quiet=quiet)
